@@ -684,6 +684,32 @@ fn shrink_candidates(sc: &Scenario) -> Vec<Scenario> {
             v.push(c);
         }
     }
+    // a head/rest pair is one record handed over by two adjacent calls of one thread on one
+    // long-lived stream: candidates that separate the two, lose the multi-byte character the cut
+    // sits in, or give the thread a stream per call are not scenarios of this harness
+    v.retain(|sc| {
+        sc.threads.iter().enumerate().all(|(t, calls)| {
+            let mut i = 0;
+            while i < calls.len() {
+                match calls[i].kind {
+                    CallKind::WriteAllHead => {
+                        let ok = i + 1 < calls.len()
+                            && calls[i + 1].kind == CallKind::WriteAllRest
+                            && calls[i + 1].frags == calls[i].frags
+                            && calls[i].frags.concat().bytes().any(|b| b >= 0xc2)
+                            && (sc.locked_group[t] || !sc.handle_per_call[t]);
+                        if !ok {
+                            return false;
+                        }
+                        i += 2;
+                    }
+                    CallKind::WriteAllRest => return false,
+                    _ => i += 1,
+                }
+            }
+            true
+        })
+    });
     v
 }
 
